@@ -8,7 +8,7 @@ use crate::c15::{gen_strategy, pool, shrink_decisions, NKEYS};
 use crate::core::*;
 use crate::rng::{Digest, Rng};
 use crate::sched::{self, Outcome, Strategy};
-use chia_bls::{aggregate, sign, BlsCache, PublicKey, Signature};
+use chia_bls::{aggregate, sign, sign_raw, BlsCache, PublicKey, Signature};
 use chia_consensus::conditions::{parse_spends, EmptyVisitor, MempoolVisitor};
 use chia_consensus::consensus_constants::{ConsensusConstants, TEST_CONSTANTS};
 use chia_consensus::flags::{ConsensusFlags, MEMPOOL_MODE};
@@ -32,6 +32,10 @@ pub enum KeySpec {
     Infinity,
     /// 48 bytes that are not a valid compressed G1 point
     Garbage(u64),
+    /// a point on the curve outside the subgroup: an honest key plus a torsion point. Its
+    /// holder can produce a signature that satisfies the pairing equation, so only the
+    /// subgroup check when the key is decoded rejects it
+    Shifted(u8),
 }
 
 #[derive(Serialize, Deserialize, Clone, Debug, PartialEq)]
@@ -229,6 +233,16 @@ fn key_bytes(k: &KeySpec) -> [u8; 48] {
             b[0] = 0xc0;
             b
         }
+        KeySpec::Shifted(i) => {
+            let p = pool();
+            if p.shifted_pks.is_empty() {
+                let mut b = [0xffu8; 48];
+                b[0] = 0x9f;
+                b
+            } else {
+                p.shifted_pks[*i as usize % p.shifted_pks.len()].0.to_bytes()
+            }
+        }
         KeySpec::Garbage(seed) => {
             // x-coordinate all ones is not below the field modulus: never a valid point
             let mut b = [0xffu8; 48];
@@ -331,6 +345,18 @@ fn deliver(b: &BundleSpec, consts: &ConsensusConstants, d: &[[u8; 32]; 7]) -> De
             ..Default::default()
         };
         for (j, c) in s.conds.iter().enumerate() {
+            if let KeySpec::Shifted(si) = &c.key {
+                // the holder of the honest secret key signs the message augmented with the shifted key
+                if !p.shifted_pks.is_empty() {
+                    let (spk, k) = &p.shifted_pks[*si as usize % p.shifted_pks.len()];
+                    let reference = reference_message(c.opcode, &c.msg, &s.parent, &ph, s.amount, d);
+                    let mut aug = spk.to_bytes().to_vec();
+                    aug.extend_from_slice(&reference);
+                    sigs.push(sign_raw(&p.sks[*k], &aug));
+                    signed.push((spk.to_bytes().to_vec(), reference));
+                }
+                continue;
+            }
             let KeySpec::Pool(k) = &c.key else { continue };
             let k = *k as usize % NKEYS;
             let sign_opcode = match wrong_domain {
@@ -1071,6 +1097,7 @@ fn gen_bundle(rng: &mut Rng, parent_counter: &mut u64, tamper_pct: u64, d: &[[u8
             let key = match rng.below(40) {
                 0 => KeySpec::Infinity,
                 1 => KeySpec::Garbage(rng.below(256)),
+                2 | 3 => KeySpec::Shifted(rng.below(3) as u8),
                 _ => KeySpec::Pool(rng.below(3) as u8),
             };
             conds.push(CondSpec { opcode: *rng.pick(&ops), key, msg: hex::encode(gen_msg(rng, d)) });
